@@ -1430,7 +1430,8 @@ def unique(arr, values=False):
 
     s = arr.argsort()
 
-    val = arr[0]
+    val = arr[s[0]]
+    keep[0] = s[0]
     i = 1
     nkeep = 0
     while i < n:
